@@ -48,6 +48,7 @@ type Ctx struct {
 	softClass, softDetail string
 	offerHeaders          bool
 	serverGC              bool
+	sshRemote             bool
 }
 
 func (c *Ctx) Violation(class, format string, a ...interface{}) {
